@@ -145,5 +145,56 @@ def karplusSpec (alpha delay : α) (memory : List α) (n : Nat) : List α :=
   let m := memory.take lm
   ksSpecLoop alpha delay n (List.replicate (lm - m.length) 0 ++ m)
 
+/-! ### resample
+
+Output `m` sits at the input position `P_m = Σ_{i<m} step_i` (`m·old/new` for a constant step).
+It is the Lagrange interpolation through the `order+1` neighbouring input samples
+`x[b], …, x[b+order]` at their integer positions, evaluated at `P_m`, where the input is
+zero-extended on the left and the window base is `b = sh - i0`, `i0 = (order+1) div 2`,
+`sh = max 0 ⌈P_m + i0 - (order+1)/2⌉` (for odd orders `⌈P_m⌉`: `P_m` lies in the middle
+interval of the window).  Output `m` exists iff the window does not reach past the last input
+sample (and, for a step stream, iff `step_0 .. step_{m-1}` exist): resample ends when its input does. -/
+
+section Resample
+variable [DecidableEq α] [LT α] [DecidableLT α]
+
+/-- Lagrange interpolation through the points `(t_j, y_j)` at `x` -/
+def lagrangePts (pts : List (α × α)) (x : α) : α :=
+  pts.foldl (fun (acc : α) (pj : α × α) =>
+    acc + pj.2 * ((pts.filter (fun pk => pk.1 ≠ pj.1)).foldl
+      (fun (p : α) (pk : α × α) => p * ((x - pk.1) / (pj.1 - pk.1))) 1)) 0
+
+/-- the input, zero-extended on the left -/
+def extGet (sig : List α) (zero : α) (t : Int) : α :=
+  if t < 0 then zero else sig.getD t.toNat zero
+
+def resI0 (order : Nat) : Int := ((order + 1) / 2 : Nat)
+
+def resShift (order : Nat) (P : α) : Int :=
+  max 0 (pyCeil (P + ((resI0 order : Int) : α) - half * (((order + 1 : Nat) : Int) : α)))
+
+def resExists (sig : List α) (order : Nat) (P : α) : Bool :=
+  resShift order P + ((order : Int) - resI0 order) < (sig.length : Int)
+
+def resValue (sig : List α) (zero : α) (order : Nat) (P : α) : α :=
+  let b : Int := resShift order P - resI0 order
+  lagrangePts ((List.range (order + 1)).map fun (j : Nat) =>
+    ((((b + (j : Int)) : Int) : α), extGet sig zero (b + (j : Int)))) P
+
+/-- positions: `0, s_0, s_0+s_1, …` -/
+def resPositions : α → List α → List α
+  | acc, [] => [acc]
+  | acc, s :: ss => acc :: resPositions (acc + s) ss
+
+/-- first `n` outputs, and whether the stream ended within them -/
+def resampleSpec (sig : List α) (step : Arg α) (order : Nat) (zero : α) (n : Nat) : List α × Bool :=
+  let Ps : List α := match step with
+    | .num s => (List.range (n + 1)).map fun (m : Nat) => ((m : Int) : α) * s
+    | .strm ss => resPositions 0 ss
+  let alive := Ps.takeWhile (resExists sig order)
+  ((alive.take n).map (resValue sig zero order), alive.length ≤ n)
+
+end Resample
+
 end Arith
 end ALV.C19
